@@ -6,6 +6,7 @@ import QR.Proofs.MaskChoice
 import QR.Proofs.SourceTieC09
 import QR.Proofs.Pinned
 import QR.Proofs.SourceTieD6a
+import QR.Proofs.CapstoneE4
 /-
 C09 - automatic mask = first minimiser of the penalty over the eight trial symbols; explicit mask used as given.
 Against the Spec (`C09_chooseMask`): the mask recorded in and applied to a compiled symbol is `Spec.chooseMask` of that
@@ -212,6 +213,108 @@ theorem C09_source_makeShortcut_settings (g : Global) (kw : MakeKw) (data : Byte
   QR.SourceTieD6.makeShortcut_settings g kw data s h
 
 end SourceTieD6
+
+/-! ### Capstones: (ii) composed with (i) - THE WHOLE COMPILE ASSEMBLED FROM TRANSLATED PARTS satisfies the Spec-level statements.
+    `QR.CapstoneE4.compileSrc` (QR/Proofs/CapstoneE4.lean) is the cache-free compile of a fresh object
+    (`QRCode(version, error_correction, mask_pattern)`, `data_list = segs`, `make(fit)`) with the statement order, tests and call
+    arguments of main.py:QRCode.make as translated (`Gen.Code.make_*`, regenerated from /repo's current Python AST on every run)
+    and its four callees as PARAMETERS, instantiated below, explicitly, by the functions assembled from translated fragments:
+      `best_fit`            `CapstoneE1.bestFitSrc` (main.py:QRCode.best_fit, every statement; accumulation loop `segsBitsSrc`) over
+                            `modeSizesSrc` (util.py:mode_sizes_for_version), `checkVersionSrc` (util.py:check_version, run by the
+                            `version` setter), `writeBufSrc` (util.py:QRData.write on the translated BitBuffer: put, put_bit,
+                            __len__, get); `Gen.BIT_LIMIT_TABLE` is the table dumped from the running library; 4 = recursion
+                            fuel.  Model callee left: `bisectLeft` (bisect.bisect_left of the standard library)
+      `create_data`         `CapstoneE4.createDataSrc` (util.py:create_data, length_in_bits, base.py:rs_blocks, util.py:create_bytes
+                            with both interleaving loops and the `current_ec` computation `ecOfBlockSrc`) over `segsBitsBufSrc`
+                            (the segment loop on the translated BitBuffer: put, put_bit, QRData.__len__, QRData.write, bits read
+                            back by the translated __len__ / get).  Model callees left: `rsPolyFor`, `polyMk`, `polyMod` (generator
+                            lookup / fallback loop, `Polynomial.__init__`, `Polynomial.__mod__`; tied to the source under C02),
+                            and inside `QRData.write` `intOfDigits` (`int(chars)`)
+      `makeImpl`            `CapstoneE2.makeImplSrc` (main.py:QRCode.makeImpl with setup_position_probe_pattern,
+                            setup_position_adjust_pattern, setup_timing_pattern, util.py:pattern_position, setup_type_info,
+                            setup_type_number, util.py:BCH_type_info, BCH_type_number, map_data, the lambdas of util.py:mask_func)
+                            over `bchDigitSrc` (util.py:BCH_digit, translated `while` loop)
+      `best_mask_pattern`   `CapstoneE4.bestMaskSrc` (inside `compileSrc`: `range(mask_candidates)`, `makeImpl(True, i)`, the
+                            translated update test `pick_update`)
+      `lost_point`          `CapstoneE4.lostPointSrc` (util.py:lost_point and its four scanners, all translated)
+    `find_bytes` = `ALPHA_NUM.find` on a one-character bytes object, with the hypothesis `hfb` of the bridge kept.
+    Hand-assembled, not translated: the `for` / `while` skeletons of the assemblers (fuel where a `while` has no static bound),
+    the `if pattern == k` dispatch of `mask_func`, the two caches (`data_cache` = `create_data` run once;
+    `precomputed_qr_blanks` = always a miss), the representation functions (`bitsBE`, `packBytes`, `Mat.toBMat`: `BitBuffer.put` as
+    a bit list, `buffer.buffer`, `self.modules` read as Booleans).
+    No other Model function occurs in a conclusion.  All from `QR.CapstoneE4.compileSrc_eq_refined` (= `bestFitSrc_eq`,
+    `createDataSrc_eq`, `makeImplSrc_eq`, `SourceTie.pick_eq`, `SourceTieD3.lost_point_src`, `segsLoopSrc_eq`,
+    `segWrite_bytes_src`, `bchDigit_src`) and the property theorems above. -/
+section Capstone
+open QR.Gen.Code QR.SourceTieA QR.CapstoneE1 QR.CapstoneE2 QR.CapstoneE4
+
+/-- **capstone, main.py:QRCode.make -> best_fit -> util.py:create_data -> best_mask_pattern (-> makeImpl(True, i) ->
+    util.py:lost_point, eight times) -> makeImpl(False, ·)**: with no mask requested, the mask recorded in and applied to the symbol
+    built by the compile assembled from the translated source is exactly the mask ISO 7.8.3 selects, computed by the Spec from
+    that symbol alone (`Spec.chooseMask`: re-mask the data region with each of the eight patterns, format / version information
+    and dark module light, four penalty rules, lowest score, lowest number on ties).  `S` is any Boolean view of the matrix.
+    From `compileSrc_eq_refined` and `C09_chooseMask`. -/
+theorem C09_source_capstone_chooseMask (find_bytes : List Nat → R Nat) (hfb : ∀ a, find_bytes [a] = alphaFind a)
+    (cfg : Cfg) (hcfg : cfg.Valid) (l : Spec.Level) (hl : cfg.level = l.indicator)
+    (segs : List Seg) (hv : ∀ s ∈ segs, s.Valid) (hm : cfg.mask = none) (v m : Nat) (M : Mat)
+    (h : compileSrc (bestFitSrc modeSizesSrc (segsBitsSrc (writeBufSrc find_bytes)) Gen.BIT_LIMIT_TABLE bisectLeft checkVersionSrc 4)
+        (createDataSrc (segsBitsBufSrc find_bytes) (ecOfBlockSrc rsPolyFor polyMk polyMod)) (makeImplSrc bchDigitSrc) lostPointSrc cfg segs
+      = .ok (v, m, M))
+    (S : Spec.Sym) (hn : S.n = M.size) (hS : ∀ r c, S.get r c = (M.get r c).getD false) :
+    Spec.chooseMask S v m = m := by
+  rw [compileSrc_eq_refined find_bytes hfb cfg (hl ▸ Sym.indicator_lt l)] at h
+  exact C09_chooseMask cfg hcfg l hl segs hv hm v m M h S hn hS
+
+/-- **capstone, same chain without best_mask_pattern: explicit choice** - with `mask_pattern = m` the assembled compile reports
+    `m` and its symbol is the one the source-assembled `makeImpl(False, m)` builds from the codewords of the source-assembled
+    `create_data` (the same `m` goes to the format information and to `map_data`, by `C05_source_capstone_info` /
+    `C05_source_capstone_map_data`); no hypothesis on the configuration beyond the level being one of the four indicators.
+    From `compileSrc_eq_refined`, `C09_explicit`, `createDataSrc_eq_refined`, `makeImplSrc_eq_refined`. -/
+theorem C09_source_capstone_explicit (find_bytes : List Nat → R Nat) (hfb : ∀ a, find_bytes [a] = alphaFind a)
+    (cfg : Cfg) (hl : cfg.level < 4) (segs : List Seg) (m : Nat) (hm : cfg.mask = some m)
+    (v k : Nat) (M : Mat)
+    (h : compileSrc (bestFitSrc modeSizesSrc (segsBitsSrc (writeBufSrc find_bytes)) Gen.BIT_LIMIT_TABLE bisectLeft checkVersionSrc 4)
+        (createDataSrc (segsBitsBufSrc find_bytes) (ecOfBlockSrc rsPolyFor polyMk polyMod)) (makeImplSrc bchDigitSrc) lostPointSrc cfg segs
+      = .ok (v, k, M)) :
+    k = m ∧ ∃ data, createDataSrc (segsBitsBufSrc find_bytes) (ecOfBlockSrc rsPolyFor polyMk polyMod) v cfg.level segs = .ok data ∧
+      makeImplSrc bchDigitSrc v cfg.level false m data = .ok M := by
+  rw [compileSrc_eq_refined find_bytes hfb cfg hl] at h
+  have h1 : 1 ≤ v := compile_ok_version_pos h
+  obtain ⟨hk, data, hd, hM⟩ := C09_explicit cfg segs m hm v k M h
+  exact ⟨hk, data, (createDataSrc_eq_refined find_bytes hfb v cfg.level segs h1).trans hd, (makeImplSrc_eq_refined v cfg.level false m data h1).trans hM⟩
+
+/-- **capstone, main.py:QRCode.best_mask_pattern over makeImpl(True, i) and util.py:lost_point (all source-assembled)**: when the
+    eight trial symbols build (`Ms i`, by the source-assembled `makeImpl(True, i)`), the assembled loop returns the
+    lowest-numbered mask whose trial symbol has the least ISO penalty (`Spec.penalty`, the four rules of ISO 7.8.3.1, on the
+    Boolean reading of the trial matrix).  From `bestMaskSrc_eq` (`C09_source_loop`), `makeImplSrc_eq_refined`,
+    `SourceTieD3.lost_point_src`, `C09_auto` and `C08_lost_point`. -/
+theorem C09_source_capstone_auto (v l : Nat) (h1 : 1 ≤ v) (hl : l < 4) (data : List Nat) (Ms : Nat → Mat)
+    (h : ∀ i, i < 8 → makeImplSrc bchDigitSrc v l true i data = .ok (Ms i)) :
+    bestMaskSrc (fun t i => makeImplSrc bchDigitSrc v l t i data) lostPointSrc
+      = .ok (Spec.argminFirst 8 fun i => Spec.penalty (Ms i).toBMat) := by
+  have h' : ∀ i, i < 8 → makeImpl v l true i data = .ok (Ms i) := fun i hi => by
+    rw [← makeImplSrc_eq_refined v l true i data h1]; exact h i hi
+  rw [bestMaskSrc_congr _ (fun t i => makeImpl v l t i data) _ (fun m => lostPoint m.toBMat)
+    (fun i _ => makeImplSrc_eq_refined v l true i data h1)
+    (fun i m hi hm => lostPointSrc_eq m _ (makeImpl_shape h1 hl hi hm)), bestMaskSrc_eq, C09_auto v l data Ms h']
+  congr 1
+  apply MaskChoice.argminFirst_congr
+  intro i hi
+  have hs := makeImpl_shape h1 hl hi (h' i hi)
+  rw [← lostPointSrc_eq (Ms i) _ hs]
+  exact lostPointSrc_eq_penalty (Ms i) _ hs (by unfold Spec.size; omega)
+
+set_option maxRecDepth 100000 in
+/-- `C09_source_capstone_explicit` at a concrete input, evaluated by the kernel on the assembled translated definitions: "hi" at
+    version 1-M with `mask_pattern = 3` - the assembled compile reports mask 3, version 1, a 21 x 21 symbol with the dark
+    module set.  (The automatic choice needs eight `lost_point` evaluations, about a minute in the kernel: not repeated here.) -/
+example : (match compileSrc (bestFitSrc modeSizesSrc (segsBitsSrc (writeBufSrc findBytes1)) Gen.BIT_LIMIT_TABLE bisectLeft checkVersionSrc 4)
+        (createDataSrc (segsBitsBufSrc findBytes1) (ecOfBlockSrc rsPolyFor polyMk polyMod)) (makeImplSrc bchDigitSrc) lostPointSrc
+        { version := 1, level := 0, mask := some 3, fit := false } [{ mode := 4, data := [104, 105] }] with
+    | .ok (v, k, M) => v == 1 && k == 3 && M.get 13 8 == some true && M.size == 21
+    | _ => false) = true := by decide +kernel
+
+end Capstone
 
 /-- the Python functions this property's model mirrors have, in /repo's current working tree, exactly the normalised
     ASTs the model was written and validated against (fingerprints regenerated by T1 on every run) -/
